@@ -95,7 +95,9 @@ type End struct {
 	pendingWrites int // writes currently blocked in a stall
 	rdl, wdl      deadline
 	CloseCount    int
-	wclosed       bool // CloseWrite was called
+	MaxDatagram   int    // >0: Writes longer than this fail with EMSGSIZE (UDP sockets: 65507)
+	OnAddr        func() // one-shot hook run by the next LocalAddr call
+	wclosed       bool   // CloseWrite was called
 	closeGate     chan struct{}
 	closesParked  int
 	stallEach     bool // every Write blocks until the harness commits it individually
@@ -157,7 +159,18 @@ func (e *End) Read(b []byte) (int, error) {
 	}
 }
 
-func (e *End) Write(b []byte) (int, error) {
+func (e *End) Write(b []byte) (n int, err error) {
+	if e.MaxDatagram > 0 && len(b) > e.MaxDatagram {
+		// like a UDP socket: the datagram is refused when the (possibly delayed) send is attempted
+		e.mu.Lock()
+		stalled := e.stall
+		gate := e.gate
+		e.mu.Unlock()
+		if stalled {
+			<-gate
+		}
+		return 0, &net.OpError{Op: "write", Net: "udp", Err: syscall.EMSGSIZE}
+	}
 	first := true
 	for {
 		e.mu.Lock()
@@ -322,7 +335,18 @@ func (e *End) Close() error {
 	return nil
 }
 
-func (e *End) LocalAddr() net.Addr  { return e.local }
+// LocalAddr runs the one-shot OnAddr hook first: the moment the implementation inspects a new connection is a
+// point at which the harness may let something else happen (a preemption point inside connection set-up).
+func (e *End) LocalAddr() net.Addr {
+	e.mu.Lock()
+	h := e.OnAddr
+	e.OnAddr = nil
+	e.mu.Unlock()
+	if h != nil {
+		h()
+	}
+	return e.local
+}
 func (e *End) RemoteAddr() net.Addr { return e.remote }
 
 func (e *End) SetDeadline(t time.Time) error {
